@@ -14,10 +14,10 @@ E == Tr[l]
 
 \* the undo file on disk after the call
 LoggedUf ==
-   /\ uf'.exists = (E.uf = 1)
-   /\ uf'.exists =>
+   /\ (0 \notin dmg' => uf'.exists = (E.uf = 1))
+   /\ uf'.exists /\ 0 \notin dmg' =>
         /\ <<uf'.hdr.nkeys, uf'.hdr.tdb, uf'.hdr.fsbs, uf'.hdr.state, uf'.hdr.off>> = <<E.hdr[1], E.hdr[2], E.hdr[3], E.hdr[4], E.hdr[5]>>
-        /\ (uf'.hdr.tdb >= 1 => uf'.sb = E.sbt \/ (1 \in dmg' /\ E.sbt = -1))
+        /\ (uf'.hdr.tdb >= 1 /\ 1 \notin dmg' => uf'.sb = E.sbt)
         /\ LET rk == ReadKeys(uf', dmg')
            IN /\ rk.ok = (E.pok = 1)
               /\ rk.ok => /\ Len(rk.keys) = Len(E.keys)
@@ -25,7 +25,7 @@ LoggedUf ==
                                /\ rk.keys[i].fsblk = E.keys[i][1] /\ rk.keys[i].size = E.keys[i][2]
                                /\ rk.keys[i].data = E.keys[i][3] /\ rk.keys[i].fileblk = E.keys[i][4]
 LoggedDev == /\ len' = E.len
-             /\ \A g \in 0..(len' - 1) : dev'[g] = E.dev[g + 1]
+             /\ \A g \in 0..(len' - 1) : dev'[g] = E.dev[g + 1] \/ (dev'[g] = Foreign /\ E.dev[g + 1] = -1)
 
 TReset == /\ IsEvent("reset") /\ E.a = N
           /\ dev' = Dev0 /\ len' = N /\ ch' = NoCh /\ uf' = NoUf /\ pend' = NoPend /\ nops' = 0 /\ nruns' = 0
@@ -34,6 +34,8 @@ TOpen == /\ IsEvent("open")
          /\ IF E.ret = 0 THEN OpenCh(E.a, E.n)
             ELSE /\ uf.exists /\ ~ReopenOk(uf, dmg, dev, len) /\ UNCHANGED vars
          /\ LoggedUf
+\* a call issued after an open that was refused: there is no channel
+TNoChan == IsEvent("nochan") /\ ~ch.open /\ UNCHANGED vars /\ LoggedUf
 TBlk == IsEvent("blk") /\ E.ret = 0 /\ SetBlk(E.a) /\ LoggedUf
 TCall == /\ l <= Len(Tr) /\ E.e \in Kinds /\ l' = l + 1
          /\ Call(E.e, E.a, E.n, E.ret = 0)
@@ -52,7 +54,7 @@ TE2undo == /\ IsEvent("e2undo") /\ E.a \in {0, 1}
            /\ LoggedDev /\ LoggedUf
 
 TraceInit == Init /\ l = 1
-TraceNext == TReset \/ TOpen \/ TBlk \/ TCall \/ TClose \/ TFlip \/ TUnflip \/ TTamper \/ TE2undo
+TraceNext == TReset \/ TOpen \/ TNoChan \/ TBlk \/ TCall \/ TClose \/ TFlip \/ TUnflip \/ TTamper \/ TE2undo
 TraceSpec == TraceInit /\ [][TraceNext]_tvars
 TraceAccepted == TLCGet("stats").diameter - 1 = Len(Tr)
 =============================================================================
